@@ -26,10 +26,15 @@ func zzChain(r *Reader, depth int) []*box {
 	return chain
 }
 
-func zzC11_op_N() int { return 16 }
+func zzC11_op_N() int { return 18 }
 func zzC11_op() {
 	op, depth := zzPart()%8, 2+zzPart()/8
 	src := zzReaderOf(zzBytes("d", 48))
+	if zzPart() >= 16 {
+		// Read over a source that delivers arbitrary short reads: the buffered reader then returns fewer bytes than asked
+		op, depth = 2, 2+zzPart()-16
+		src = zzChunkedReaderOf(zzBytes("d", 48), "c")
+	}
 	br := bufio.NewReaderSize(src, 4096)
 	r := &Reader{br: br}
 	_, _ = br.Peek(1) // fill the buffer so that "consumed" is the logical position
